@@ -218,12 +218,15 @@ def applyView (v : View) (xs : List α) : List α :=
 def select (xs : List α) (m : List Bool) : List α :=
   (xs.zip m).filterMap fun p => if p.2 then some p.1 else none
 
+/-- The key of one row in key column `c`: its dtype and its stored item. -/
+def keyOf (dts : List DType) (row : List Cell) (c : Nat) : Option Key :=
+  match dts[c]?, row[c]? with
+  | some d, some x => some (d, x)
+  | _, _ => none
+
 /-- The key tuple of one row for the given key columns. -/
 def rowKeys (dts : List DType) (cids : List Nat) (row : List Cell) : List Key :=
-  cids.filterMap fun c =>
-    match dts[c]?, row[c]? with
-    | some d, some x => some (d, x)
-    | _, _ => none
+  cids.filterMap (keyOf dts row)
 
 inductive Res where
   | mask (m : List Bool)
@@ -418,7 +421,7 @@ def rowsOk (l r : List Key) : Bool := (l.zip r).all fun p => pairOk p.1 p.2
 
 def joinOk (L : Dataset) (j : Join) (R : Dataset) : Bool :=
   arityOk j.own.length j.oth.length &&
-  (j.own.length != j.oth.length ||
+  (j.own.length != j.oth.length || j.own.length == 1 ||
     L.rows.all fun lr => R.rows.all fun rr => rowsOk (rowKeys L.dts j.own lr) (rowKeys R.dts j.oth rr))
 
 def worldOk (w : World) : Bool :=
